@@ -5,10 +5,12 @@ import (
 	"encoding/json"
 	"fmt"
 	"os"
+	"os/signal"
 	"sort"
 	"strconv"
 	"sync"
 	"sync/atomic"
+	"syscall"
 
 	"verif/props"
 
@@ -28,6 +30,13 @@ func c13Child(args []string) int {
 	if len(args) >= 1 && args[0] == "conc" {
 		return c13Conc(args[1:])
 	}
+	limit := int64(-1)
+	if len(args) >= 7 && args[0] == "aclimit" {
+		// the file-size limit makes the kernel cut a write short (the rest fails with EFBIG),
+		// the way a full disk or a quota does
+		limit, _ = strconv.ParseInt(args[6], 10, 64)
+		args[0] = "ac"
+	}
 	if len(args) < 6 || args[0] != "ac" {
 		mark("usage")
 		return 2
@@ -38,6 +47,14 @@ func c13Child(args []string) int {
 	data := pay1(byte(v), n)
 	fs := filesys.NewDirFs(root)
 	res := "ok"
+	if limit >= 0 {
+		signal.Ignore(syscall.SIGXFSZ)
+		lim := syscall.Rlimit{Cur: uint64(limit), Max: uint64(limit)}
+		if err := syscall.Setrlimit(syscall.RLIMIT_FSIZE, &lim); err != nil {
+			mark("setrlimit failed: %v", err)
+			return 3
+		}
+	}
 	mark("BEGIN 0 AtomicCreate")
 	func() {
 		defer func() {
